@@ -188,8 +188,8 @@ fn unary_model(s: &S) -> J {
 fn binary_src(s: &S, p: &S) -> String {
     let (qs, qp) = (escape_str(&st(s)), escape_str(&st(p)));
     format!(
-        "local s = {qs}, p = {qp}; {{ find: std.findSubstr(p, s), split: std.split(s, p), sl: [std.splitLimit(s, p, n) for n in [0, 1, 2]], \
-         slr: [std.splitLimitR(s, p, n) for n in [0, 1, 2]], rejoin: std.join(p, std.split(s, p)) == s, rep: [std.strReplace(s, p, \"Z\"), std.strReplace(s, p, \"\"), std.strReplace(s, p, p + p)], \
+        "local s = {qs}, p = {qp}; {{ find: std.findSubstr(p, s), split: std.split(s, p), sl: [std.splitLimit(s, p, n) for n in [0, 1, 2, 3, 1e10, 18446744073709551616, 1e300, -1]], \
+         slr: [std.splitLimitR(s, p, n) for n in [0, 1, 2, 3, 1e10, 18446744073709551616, 1e300, -1]], rejoin: std.join(p, std.split(s, p)) == s, rep: [std.strReplace(s, p, \"Z\"), std.strReplace(s, p, \"\"), std.strReplace(s, p, p + p)], \
          sw: std.startsWith(s, p), ew: std.endsWith(s, p), strip: [std.lstripChars(s, p), std.rstripChars(s, p), std.stripChars(s, p)], \
          eic: std.equalsIgnoreCase(s, p), mem: std.member(s, p[0]), cmp: [s < p, s == p, s > p] }}"
     )
@@ -200,8 +200,10 @@ fn binary_model(s: &S, p: &S) -> J {
     json!({
         "find": find_all(p, s),
         "split": parts(split_limit(s, p, -1)),
-        "sl": [parts(split_limit(s, p, 0)), parts(split_limit(s, p, 1)), parts(split_limit(s, p, 2))],
-        "slr": [parts(rsplit_limit(s, p, 0)), parts(rsplit_limit(s, p, 1)), parts(rsplit_limit(s, p, 2))],
+        // limits: 0, 1, 2, 3, three huge ones (all separators), -1 (unlimited; splitLimitR then
+        // splits from the left like splitLimit, as upstream defines it)
+        "sl": [parts(split_limit(s, p, 0)), parts(split_limit(s, p, 1)), parts(split_limit(s, p, 2)), parts(split_limit(s, p, 3)), parts(split_limit(s, p, i64::MAX)), parts(split_limit(s, p, i64::MAX)), parts(split_limit(s, p, i64::MAX)), parts(split_limit(s, p, -1))],
+        "slr": [parts(rsplit_limit(s, p, 0)), parts(rsplit_limit(s, p, 1)), parts(rsplit_limit(s, p, 2)), parts(rsplit_limit(s, p, 3)), parts(rsplit_limit(s, p, i64::MAX)), parts(rsplit_limit(s, p, i64::MAX)), parts(rsplit_limit(s, p, i64::MAX)), parts(split_limit(s, p, -1))],
         "rejoin": true,
         "rep": [js(&replace(s, p, &vec!['Z'])), js(&replace(s, p, &vec![])), js(&replace(s, p, &[p.clone(), p.clone()].concat()))],
         "sw": s.len() >= p.len() && s[..p.len()] == p[..],
